@@ -155,12 +155,14 @@ pub struct TypeEntry {
     pub shape_s: String,
     pub run: RunFn,
     pub run_swap: RunFn,
+    /// C03: the same driver over a native account (`impl UnsizedTypeDataAccess for AccountInfo`)
+    pub run_acct: RunFn,
 }
 
 fn entry<T: Node + ?Sized>(id: &'static str, rust: &'static str) -> TypeEntry {
     let shape = T::shape();
     let shape_s = shape.print();
-    TypeEntry { id, rust, shape, shape_s, run: run_case::<T>, run_swap: run_swap_case::<T> }
+    TypeEntry { id, rust, shape, shape_s, run: run_case::<T, crate::access::Access>, run_swap: run_swap_case::<T>, run_acct: run_case::<T, crate::access::AcctBacking> }
 }
 
 macro_rules! reg {
